@@ -218,8 +218,12 @@ func Counter.Update
 -- holds the lock and delivers it right after.
 global lstlen IntArr
 type Stack
-  monitor mutex guards global:lstlen cond elementAdded, elementRemoved
-  invariant self.elements != nil && sel(lstlen, self.elements) >= 0
+  ghost late Int         -- goroutines that went to sleep on elementAdded after the last Push changed the stack
+  monitor mutex guards global:lstlen, late cond elementAdded, elementRemoved
+  invariant self.elements != nil && sel(lstlen, self.elements) >= 0 && self.late >= 0
+  -- an addition wakes EVERY goroutine that was asleep on elementAdded when it happened (they wait for different sizes):
+  -- whoever is asleep went to sleep after the last addition, or a notification for that addition is still owed
+  invariant self.owed_elementAdded > 0 || self.sleep_elementAdded <= self.late
   invariant 0 <= self.sleep_elementAdded && 0 <= self.sleep_elementRemoved && 0 <= self.owed_elementAdded && 0 <= self.owed_elementRemoved && 0 <= self.wake_elementAdded && 0 <= self.wake_elementRemoved
 
 assume-func container/list.List.Len(l) (r)
@@ -234,6 +238,7 @@ func Stack.Push
   requires b != nil && unlocked(b.mutex) && b.elementAdded != nil
   modifies monitor(b)
   ghost before unlock: owe elementAdded
+  ghost before unlock: b.late = 0
   ensures unlocked(b.mutex)
 
 func Stack.Size
@@ -255,6 +260,8 @@ func Stack.WaitSizeIsAbove
   requires b != nil && unlocked(b.mutex) && b.elementAdded != nil
   modifies monitor(b)
   loop 1 invariant held(b.mutex) && moninv(b)
+  opt assume-no-overflow
+  ghost before wait: b.late = b.late + 1
   ghost before unlock: assert sel(lstlen, b.elements) > threshold
   ensures unlocked(b.mutex)
 
